@@ -439,6 +439,11 @@ class App:
             # a separate cache folder next to the storage folder, removed with it
             conf = dict(conf, storage=dict(conf["storage"], filesystem_cache_folder=self.folder + "-cache"))
             os.makedirs(self.folder + "-cache", exist_ok=True)
+        if conf.get("storage", {}).get("filesystem_cache_folder") == "@prefix":
+            # a cache folder whose path is a string prefix of the storage folder's path (/srv/radicale and /srv/radicale-data)
+            self.extra_dirs = getattr(self, "extra_dirs", []) + [self.folder[:-2]]
+            conf = dict(conf, storage=dict(conf["storage"], filesystem_cache_folder=self.folder[:-2]))
+            os.makedirs(self.folder[:-2], exist_ok=True)
         self.configuration.update(conf, "verif", privileged=True)
         for k, v in conf.items():
             self.conf.setdefault(k, {}).update(v)
@@ -456,6 +461,8 @@ class App:
         if self.own_folder and not self.keep:
             shutil.rmtree(self.folder, ignore_errors=True)
             shutil.rmtree(self.folder + "-cache", ignore_errors=True)
+            for d in getattr(self, "extra_dirs", []):
+                shutil.rmtree(d, ignore_errors=True)
 
     def __enter__(self):
         return self
